@@ -430,6 +430,7 @@ def run_check(spec, tier, seed):
                 ctx.broken.append("correspondence driver does not build: " + _first_error(dout))
         # 3. audit
         hits, mods = grep_forbidden([spec.props_module])
+        hits += grep_forbidden(["Earverif.Props.Kernels", "Earverif.Props.KernelsSel", "Earverif.Props.KernelsAdm"])[0]
         ctx.obligation("no-forbidden-tokens", not hits, "; ".join("%s:%d %s" % h for h in hits[:5]))
         if build_ok:
             ax, raw = audit_axioms(spec.pid, spec.props_module, spec.theorems)
